@@ -203,11 +203,11 @@ func (st *descState) desc(v ssa.Value, d int) string {
 		}
 		return "&local:" + x.Comment
 	case *ssa.FieldAddr:
-		return "&" + st.desc(x.X, d) + "." + fieldName(x.X.Type().Underlying().(*types.Pointer).Elem(), x.Field)
+		return "&" + strings.TrimPrefix(st.desc(x.X, d), "&") + "." + fieldName(x.X.Type().Underlying().(*types.Pointer).Elem(), x.Field)
 	case *ssa.Field:
 		return st.desc(x.X, d) + "." + fieldName(x.X.Type(), x.Field)
 	case *ssa.IndexAddr:
-		return "&" + st.desc(x.X, d) + "[" + st.desc(x.Index, d-1) + "]"
+		return "&" + strings.TrimPrefix(st.desc(x.X, d), "&") + "[" + st.desc(x.Index, d-1) + "]"
 	case *ssa.Index:
 		return st.desc(x.X, d) + "[" + st.desc(x.Index, d-1) + "]"
 	case *ssa.Lookup:
@@ -436,7 +436,7 @@ func FactString(g Guard) string {
 			if b.Op == token.NEQ {
 				pol = !pol
 			}
-			if y < x {
+			if (y < x && y != "nil") || x == "nil" {
 				x, y = y, x
 			}
 			return sign(pol) + "(" + x + " == " + y + ")"
